@@ -77,10 +77,12 @@ def ndarray2utpm(A):
             proto = a
             break
     retval = zeros(shp,dtype=proto)
-    # the coefficient dtype that holds every element (not only the first one)
-    dt = numpy.result_type(retval.data.dtype, *[a.data.dtype if isinstance(a, retval.__class__) else numpy.asarray(a).dtype for a in A])
-    if dt != retval.data.dtype:
-        retval = retval.__class__(retval.data.astype(dt))
+    if isinstance(retval, algopy.UTPM):
+        # the coefficient dtype that holds every element (not only the first
+        # one); a traced buffer takes the elements as they are
+        dt = numpy.result_type(retval.data.dtype, *[a.data.dtype if isinstance(a, retval.__class__) else numpy.asarray(a).dtype for a in A])
+        if dt != retval.data.dtype:
+            retval = retval.__class__(retval.data.astype(dt))
 
     for na, a in enumerate(A):
         retval[numpy.unravel_index(na, shp)] = a
